@@ -38,7 +38,7 @@ theorem gRemoveIt_eq (kind : Kind) (h : Nat → Nat) (t : PTable) (item : Nat) (
   cases kind
   · exact gen_map_removeIt h t item hc hp
   · exact gen_set_removeIt h t item hc hp
-  · exact gen_pool_removeIt h t item hc
+  · exact gen_pool_removeIt h t item hc hp
 
 theorem gRemoveKey_eq (kind : Kind) {h : Nat → Nat} {pt : PTable} {t : Table} (hr : Rel pt t) (hi : t.Inv h) (k : Nat) :
     gRemoveKey kind h pt k = pt.removeKey h k := by
@@ -210,8 +210,9 @@ theorem gstep_eq_pstep (kind : Kind) (h : Nat → Nat) (ps : PState) (s : State)
     simp only [gstep, pstep, hav, Bool.not_true, Bool.false_eq_true, if_false]
     cases kind <;> simp [optSet, gen_map_assignSelf, gen_set_assignSelf, e]
   | swapSelf t =>
+    obtain ⟨hr, hself⟩ := hp.get t
     simp only [gstep, pstep, hav, Bool.not_true, Bool.false_eq_true, if_false]
-    cases kind <;> simp [optSet, gen_map_swapSelf, gen_set_swapSelf, gen_pool_swapSelf]
+    cases kind <;> simp [optSet, gen_map_swapSelf hr, gen_set_swapSelf hr, gen_pool_swapSelf hr]
   | appendSelf t =>
     obtain ⟨hr, hself⟩ := hp.get t
     simp only [gstep, pstep, hav, Bool.not_true, Bool.false_eq_true, if_false]
